@@ -96,6 +96,13 @@ theorem gen_compute_base_rate_eq : @SLV.Gen.Mul.compute_base_rate = @SLV.compute
   simp only [gen_OpinionRef_is_vacuous_eq, gen_OpinionRef_is_dogmatic_eq]
   cases op <;> rfl
 
+/-- `Fuse<OpinionRef, OpinionRef>::fuse`; `same` is handed to `compute_base_rate` -/
+theorem gen_fuse_eq : @SLV.Gen.Mul.fuse = @SLV.fuse := by
+  funext α _ n op same l r
+  unfold SLV.Gen.Mul.fuse SLV.fuse
+  rw [gen_compute_simlex_eq, gen_compute_base_rate_eq, gen_uncertainty_maximized_eq]
+  cases op <;> rfl
+
 theorem gen_projections_eq : @SLV.Gen.Mul.projections = @SLV.projections := by
   funext α _ n m conds ay
   unfold SLV.Gen.Mul.projections SLV.projections
